@@ -73,11 +73,8 @@ int Logger::operator()()
 		LogElement *msg_ptr(0);
 
 #if (FIX8_MPMC_SYSTEM == FIX8_MPMC_FF)
-		const bool stopping(_stopping); // sampled before the pop: a line queued and a stop requested after a failed pop must not be missed
-		if (!_msg_queue.try_pop(msg_ptr))
+		if (!_msg_queue.try_pop(msg_ptr))	// nothing published at the head; a producer may still hold a claimed slot there, so only the element stop() queues ends the loop
 		{
-			if (stopping)	// leave only once everything queued has been written
-				break;
 			hypersleep<h_microseconds>(200);
 			continue;
 		}
